@@ -48,14 +48,18 @@ def name_of(mc, proto):
 def second_query_after_failure(mc, version, first_mode, seed):
     run = Run(seed=seed)
     obs = {'status': [], 'ping': []}
+    scripts = []
 
     def factory(idx, sess):
         sc = TracingScript(run, Profile(version), [])
+        scripts.append(sc)
         if idx == 0 and first_mode == 'play_comp':
             # a whole session with compression switched on, ended by the server's disconnect packet
             sc.steps = [('expect', 2), ('send', sc.prof.login_compress(64)), ('compress', 64),
                         ('send', sc.prof.login_success(bytes(range(16)), 'verif')), ('call', lambda s: setattr(s, 'state', 'play')),
                         ('send', sc.prof.keep_alive(5)), ('send', sc.prof.play_disconnect('{"text":"bye"}'))]
+        elif idx == 0 and first_mode.endswith('_hangup'):
+            sc.steps = [('close',)]         # ... that hangs up at once: the client's first writes fail and stay queued
         elif idx == 0:
             sc.steps = [('expect', 2), ('close',)]          # the first attempt meets a server that hangs up
         else:
@@ -68,7 +72,7 @@ def second_query_after_failure(mc, version, first_mode, seed):
     def scenario(run):
         c = run.make_connection(allowed_versions={version})
         try:
-            (c.status if first_mode == 'status' else c.connect)()
+            (c.status if first_mode.startswith('status') else c.connect)()
         except Exception:       # noqa
             pass
         for t in list(run.installed.started):
@@ -91,6 +95,10 @@ def second_query_after_failure(mc, version, first_mode, seed):
         return 'the exit callback ran %d times for the second query' % (run.exits - marks['exits'])
     if marks.get('socket') is not None:
         return 'the connection was not closed'
+    second = [p['t'] for p in scripts[-1].parsed] if len(scripts) > 1 else None
+    if second != ['handshake', 'status_request', 'status_ping']:
+        # whatever the failed attempt left unsent belongs to that attempt: the query begins with its own handshake
+        return 'the second query put %r on the wire, not handshake, request, ping' % (second,)
     return None
 
 
@@ -361,9 +369,9 @@ def run(chk):
                             'expected': {k: row[k] for k in ('tcp', 'frames', 'outcome')}, 'map': m})
     # ---- a status query on a Connection object whose previous attempt failed: it is a query like any other (status
     #      delivered once, connection closed, exit callback run once)
-    for j in range(8 if chk.tier == 'quick' else 60):
+    for j in range(10 if chk.tier == 'quick' else 60):
         v = [47, 340, 757, 404][j % 4]
-        first_mode = ('status', 'connect', 'play_comp')[j % 3]
+        first_mode = ('status', 'connect', 'play_comp', 'connect_hangup', 'status_hangup')[j % 5]
         what = second_query_after_failure(mc, v, first_mode, chk.seed * 211 + j)
         chk.traces += 1
         chk.case(('requery', j))
